@@ -1,4 +1,5 @@
 import PwVerif.Proofs.Hint
+import PwVerif.Proofs.HintGate
 /-!
 # C04 — An accepted typed connection is sound, and comparing hints never crashes
 
@@ -8,8 +9,18 @@ hint. Comparing any two supported hints terminates with a yes/no answer, and eve
 compatible with itself."
 
 Model: `PwVerif/Model/Hint.lean` (`ms` = `type_hint_is_as_or_more_specific_than`, `admits` =
-`valid_value`, `tg` = typeguard, `Cfg` = pinned / patched / repaired behaviour). Only property
-theorems live here; lemmas are in `Proofs/Hint.lean`.
+`valid_value`, `tg` = typeguard, `Cfg` = pinned / patched / repaired behaviour) and
+`PwVerif/Model/HintGate.lean` (`gate` = when `Channel.connect` / the `value_receiver` setter compare the
+hints at all: who asks, which side is hinted, whose `strict_hints`; `Net` = links, later flag toggles,
+values pushed through links). Only property theorems live here; lemmas are in `Proofs/Hint.lean` and
+`Proofs/HintGate.lean`.
+
+Reading of the statement for `strict_hints`: the library documents the flag as an opt-out of the
+*receiving* channel ("All these type hint tests can be disabled on the input/receiving channel",
+"Whether to check new values, connections, and partners when this channel is a value receiver"). So the
+guarantee is owed for every accepted both-hinted pair whose RECEIVING side is strict at the moment of
+acceptance — whoever initiated the link and whatever the sender's flag (`C04_gate_sound`); a policy
+that lets the sender's or the initiator's flag waive the comparison is unsound (`C04_rule_sound_iff`).
 
 The pinned code (`Cfg.pinned`) violates the full statements in four ways, each with a
 machine-checked witness below and a replay on the real code in the harness corpus:
@@ -165,6 +176,140 @@ theorem C04_connection_sound (out inp : Chan) (ho hi : Hint) (h1 : out.hint = so
     (hv : admits .repaired ho v = true) : admits .repaired hi v = true :=
   C04_sound _ ho hi v hc (C04_connect .repaired out inp ho hi h1 h2 hs hacc) hv
 
+/-! ## the acceptance gate: who asks, which side is hinted, whose `strict_hints` -/
+
+/-- the gate of the tree is the receiver-flag policy, for every initiator -/
+theorem C04_gate_is_receiver_rule (cfg : Cfg) (via : Via) (s r : Chan) :
+    gate cfg via s r = gateR treeRule cfg via s r := gate_eq_gateR cfg via s r
+
+/-- **C04_gate_consults**: both hinted and the receiver strict ⇒ the gate's answer IS the comparison's
+(yes, no, or no answer), for `out.connect(inp)`, `inp.connect(out)` and both kinds of value link,
+whatever the sender's flag -/
+theorem C04_gate_consults (cfg : Cfg) (via : Via) (s r : Chan) (hs hr : Hint) (h1 : s.hint = some hs)
+    (h2 : r.hint = some hr) (h3 : r.strict = true) : gate cfg via s r = compare cfg hs hr := by
+  rw [gate_eq_gateR, gateR_typed treeRule cfg via s r hs hr h1 h2]; simp [treeRule, h3]
+
+/-- **C04_gate_waived**: the comparison is skipped (and the link accepted) exactly when a hint is missing
+or the RECEIVER has opted out -/
+theorem C04_gate_waived (cfg : Cfg) (via : Via) (s r : Chan)
+    (h : s.hint = none ∨ r.hint = none ∨ r.strict = false) : gate cfg via s r = some true := by
+  rw [gate_eq_gateR]
+  rcases h with h | h | h
+  · exact gateR_untyped _ cfg via s r (Or.inl h)
+  · exact gateR_untyped _ cfg via s r (Or.inr h)
+  · unfold gateR; cases s.hint <;> cases r.hint <;> simp [treeRule, h]
+
+theorem C04_gate_sender_flag_irrelevant (cfg : Cfg) (via : Via) (s r : Chan) (b : Bool) :
+    gate cfg via { s with strict := b } r = gate cfg via s r := by
+  rw [gate_eq_gateR, gate_eq_gateR]; rfl
+
+theorem C04_gate_initiator_irrelevant (cfg : Cfg) (via via' : Via) (s r : Chan) :
+    gate cfg via s r = gate cfg via' s r := by
+  rw [gate_eq_gateR, gate_eq_gateR]; rfl
+
+/-- **C04_gate_sound** (repaired comparison): every link the gate accepts between two hinted channels with
+a strict receiver passes on only values the receiver's hint admits — for every initiator and every
+sender flag -/
+theorem C04_gate_sound (via : Via) (s r : Chan) (hs hr : Hint) (h1 : s.hint = some hs)
+    (h2 : r.hint = some hr) (h3 : r.strict = true) (hc : LitClean hr)
+    (hacc : gate .repaired via s r = some true) (v : V) (hv : admits .repaired hs v = true) :
+    admits .repaired hr v = true :=
+  C04_sound _ hs hr v hc (gate_strict_typed .repaired via s r hs hr h1 h2 h3 hacc) hv
+
+/-- the same for every behaviour (the tree as it is) under the named hypotheses of `C04_sound_partial` -/
+theorem C04_gate_sound_partial (cfg : Cfg) (via : Via) (s r : Chan) (hs hr : Hint)
+    (h1 : s.hint = some hs) (h2 : r.hint = some hr) (h3 : r.strict = true) (v : V)
+    (hlit : LiteralTypesDistinct hs hr) (hemp : cfg.emptyOtherStrict = true ∨ NoEmptyTuple hr)
+    (hag : IsinstanceAgrees cfg hr v) (hacc : gate cfg via s r = some true)
+    (hv : admits cfg hs v = true) : admits cfg hr v = true :=
+  C04_sound_partial cfg _ hs hr v hlit hemp hag (gate_strict_typed cfg via s r hs hr h1 h2 h3 hacc) hv
+
+/-- a flag policy is sound when every link it accepts between hinted channels with a strict receiver is -/
+def RuleSound (rule : GateRule) : Prop :=
+  ∀ (via : Via) (s r : Chan) (hs hr : Hint) (v : V), s.hint = some hs → r.hint = some hr →
+    r.strict = true → LitClean hr → gateR rule .repaired via s r = some true →
+    admits .repaired hs v = true → admits .repaired hr v = true
+
+/-- **C04_rule_sound_iff**: exactly the policies that compare whenever the receiver is strict are sound:
+neither the sender's flag nor the identity of the initiator may waive the comparison -/
+theorem C04_rule_sound_iff (rule : GateRule) :
+    RuleSound rule ↔ ∀ via b, rule via b true = true := by
+  constructor
+  · intro h via b
+    cases hr : rule via b true with
+    | true => rfl
+    | false =>
+      have w := h via ⟨some (.cls .str), b⟩ ⟨some (.cls .int), true⟩ (.cls .str) (.cls .int) (.s "abc")
+        rfl rfl rfl (by decide) (by simp [gateR, hr]) (by decide)
+      exact absurd w (by decide)
+  · intro h via s r hs hr v h1 h2 h3 hc hacc hv
+    rw [gateR_typed rule .repaired via s r hs hr h1 h2, h3, h via s.strict] at hacc
+    exact C04_sound _ hs hr v hc hacc hv
+
+theorem C04_tree_rule_sound : RuleSound treeRule :=
+  (C04_rule_sound_iff treeRule).mpr fun _ _ => rfl
+
+/-- "compare only if BOTH sides are strict": a lax `str` output is accepted by a strict `int` input -/
+theorem C04_both_flags_rule_unsound : ¬ RuleSound bothRule := by
+  intro h
+  have := (C04_rule_sound_iff bothRule).mp h .outConnects false
+  simp [bothRule] at this
+
+/-- "the flag of the channel whose method was called" -/
+theorem C04_initiator_rule_unsound : ¬ RuleSound initiatorRule := by
+  intro h
+  have := (C04_rule_sound_iff initiatorRule).mp h .outConnects false
+  simp [initiatorRule] at this
+
+/-! ## histories: links, `strict_hints` switched afterwards, values pushed through links -/
+
+/-- **C04_history_checked**: after any sequence of link attempts (all four initiators), flag toggles and
+value pushes, every link that a strict receiver accepted joins hints the comparison said yes to -/
+theorem C04_history_checked (cfg : Cfg) (chan : Nat → Chan) (ops : List Op) :
+    ((Net.init chan).run cfg ops).AcceptedChecked cfg :=
+  run_AcceptedChecked cfg ops _ (init_AcceptedChecked cfg chan)
+
+/-- **C04_history_sound** (repaired comparison) -/
+theorem C04_history_sound (chan : Nat → Chan) (ops : List Op) (l : Link)
+    (hl : l ∈ ((Net.init chan).run .repaired ops).links) (hst : l.strictAtAccept = true)
+    (hs hr : Hint) (e1 : (((Net.init chan).run .repaired ops).chan l.s).hint = some hs)
+    (e2 : (((Net.init chan).run .repaired ops).chan l.r).hint = some hr) (hc : LitClean hr)
+    (v : V) (hv : admits .repaired hs v = true) : admits .repaired hr v = true :=
+  C04_sound _ hs hr v hc (C04_history_checked .repaired chan ops l hl hst hs hr e1 e2) hv
+
+/-- **C04_push_through_accepted**: a value the sender's hint admits is never refused by the receiving end
+of such a link, whatever the flags are by then -/
+theorem C04_push_through_accepted (chan : Nat → Chan) (ops : List Op) (l : Link)
+    (hl : l ∈ ((Net.init chan).run .repaired ops).links) (hst : l.strictAtAccept = true)
+    (hs hr : Hint) (e1 : (((Net.init chan).run .repaired ops).chan l.s).hint = some hs)
+    (e2 : (((Net.init chan).run .repaired ops).chan l.r).hint = some hr) (hc : LitClean hr)
+    (v : V) (hv : admits .repaired hs v = true) (via : Via) :
+    (((Net.init chan).run .repaired ops).push .repaired via l.s l.r v).2 ≠ .receiverRejects := by
+  intro h
+  have h1 := push_receiverRejects _ _ _ _ _ _ h
+  rw [typeCheckOk_of_admits .repaired _ hr v e2
+    (C04_history_sound chan ops l hl hst hs hr e1 e2 hc v hv)] at h1
+  cases h1
+
+/-- as long as no flag is switched back ON, also the links into receivers that are strict NOW are checked -/
+theorem C04_now_checked_without_activation (cfg : Cfg) (chan : Nat → Chan) (ops : List Op)
+    (hops : ops.all Op.noActivation = true) : ((Net.init chan).run cfg ops).NowChecked cfg :=
+  run_NowChecked cfg ops hops _ (by intro l hl; cases hl)
+
+/-- …but switching a receiver's flag on does not re-validate its links: `str → int` accepted by a lax
+input stays after `activate_strict_hints` (values are then refused one by one by the channel) -/
+def exLaxThenStrict : Net :=
+  (Net.init fun i => if i = 0 then ⟨some (.cls .str), true⟩ else ⟨some (.cls .int), false⟩).run .repaired
+    [.link .outConnects 0 1, .strict 1 true]
+
+theorem C04_activation_not_rechecked : ¬ exLaxThenStrict.NowChecked .repaired := by
+  intro h
+  have := h ⟨.outConnects, 0, 1, false⟩ (by decide) (by decide) (.cls .str) (.cls .int) rfl rfl
+  exact absurd this (by decide)
+
+theorem C04_activation_value_refused :
+    (exLaxThenStrict.push .repaired .outConnects 0 1 (.s "abc")).2 = .receiverRejects := by decide
+
 /-! ## the pinned code: machine-checked counterexamples -/
 
 /-- `Union[int, float]` vs `int`, and any old-style union against a non-union: no answer, ever -/
@@ -285,6 +430,24 @@ example : admits .pinned exOutP (.b true) = true ∧ admits .pinned exOutP (.l [
 example : (compare .patched (.unionOld [.cls .bool, .cls .noneT]) (.unionNew [.cls .int, .cls .noneT])).isSome :=
   by decide
 
+/-- the gate: a lax sender, a strict receiver, every initiator; accepted and refused pairs -/
+example : ∀ via ∈ Via.all, gate .patched via ⟨some exOutP, false⟩ ⟨some exInpP, true⟩ = some true := by decide
+example : ∀ via ∈ Via.all, gate .patched via ⟨some (.cls .str), false⟩ ⟨some (.cls .int), true⟩ = some false := by
+  decide
+example : ∀ via ∈ Via.all, gate .patched via ⟨some (.cls .str), true⟩ ⟨some (.cls .int), false⟩ = some true := by
+  decide
+example : ∀ via ∈ Via.all, gateR bothRule .patched via ⟨some (.cls .str), false⟩ ⟨some (.cls .int), true⟩ = some true := by
+  decide
+/-- a history: refused, accepted by a strict receiver with a lax sender, flags toggled, a value link on top -/
+def exHist : Net :=
+  (Net.init fun i => if i = 0 then ⟨some (.cls .bool), false⟩ else if i = 1 then ⟨some (.cls .int), true⟩
+      else if i = 2 then ⟨some (.cls .str), true⟩ else ⟨some (.unionNew [.cls .int, .cls .str]), true⟩).run .repaired
+    [.link .inpConnects 2 1, .link .inpConnects 0 1, .strict 1 false, .link .outConnects 2 1, .strict 1 true,
+     .setVal 1 (.i 3), .link .recvInp 1 3, .push .recvInp 1 3 (.b true)]
+example : exHist.links = [⟨.recvInp, 1, 3, true⟩, ⟨.outConnects, 2, 1, false⟩, ⟨.inpConnects, 0, 1, true⟩] := by
+  decide
+example : exHist.val 3 = some (.b true) := rfl
+
 end PwVerif.C04
 
 #print axioms PwVerif.C04.C04_sound
@@ -313,3 +476,20 @@ end PwVerif.C04
 #print axioms PwVerif.C04.C04_patched_still_unsound
 #print axioms PwVerif.C04.C04_patched_literal_fixed
 #print axioms PwVerif.C04.C04_litclean_needed
+#print axioms PwVerif.C04.C04_gate_is_receiver_rule
+#print axioms PwVerif.C04.C04_gate_consults
+#print axioms PwVerif.C04.C04_gate_waived
+#print axioms PwVerif.C04.C04_gate_sender_flag_irrelevant
+#print axioms PwVerif.C04.C04_gate_initiator_irrelevant
+#print axioms PwVerif.C04.C04_gate_sound
+#print axioms PwVerif.C04.C04_gate_sound_partial
+#print axioms PwVerif.C04.C04_rule_sound_iff
+#print axioms PwVerif.C04.C04_tree_rule_sound
+#print axioms PwVerif.C04.C04_both_flags_rule_unsound
+#print axioms PwVerif.C04.C04_initiator_rule_unsound
+#print axioms PwVerif.C04.C04_history_checked
+#print axioms PwVerif.C04.C04_history_sound
+#print axioms PwVerif.C04.C04_push_through_accepted
+#print axioms PwVerif.C04.C04_now_checked_without_activation
+#print axioms PwVerif.C04.C04_activation_not_rechecked
+#print axioms PwVerif.C04.C04_activation_value_refused
